@@ -21,7 +21,7 @@ PROPERTY = 'C14'
 LEVEL = 'exploration'
 RULE = ('fixed corpus (one input per parser/HTTP branch named in the anchors: bad first line, bad version, other major version, '
         'missing Host, header without colon, invalid header name, non-numeric/negative/signed/conflicting Content-Length, '
-        'Content-Length + chunked, bad chunk size, missing chunk terminator, invalid escapes, NUL and high bytes, TLS/SSLv2 hello, '
+        'Content-Length + chunked, folded header fields with and without control bytes on the continuation line, bad chunk size, missing chunk terminator, invalid escapes, NUL and high bytes, TLS/SSLv2 hello, '
         'oversized header, truncation of well-formed requests at every offset, each with disconnect after every read) + seeded '
         'mutations of grammar-generated requests cut into 1-3 reads with a disconnect after a random read; a case = (reads, '
         'disconnect point); non-trivial = the input is not a well-formed request delivered completely and at least one read was '
@@ -42,7 +42,8 @@ REQUIRED = ['status_400', 'status_505', 'status_500', 'status_200_dispatched', '
             'weakref_checks', 'responses_parsed_by_reference', 'responses_crosschecked_http_client', 'reject_class_complete',
             'truncation_cases', 'multi_read_cases', 'ref_parser_selftest_checks', 'announced_close_followed_by_close']
 REQUIRED_OBLIGATIONS = ['INCOMPLETE_MESSAGE_WAITS', 'LOOP_SURVIVES', 'ONE_VALID_RESPONSE_PER_READ', 'CLOSE_FOLLOWS_ANNOUNCEMENT', 'REJECTED_NOT_DISPATCHED',
-                        'ERROR_STATUS_FOR_REJECTED', 'NO_STATE_AFTER_DISCONNECT', 'WELL_FORMED_DISPATCHED', 'EXCEPTION_ANSWERED_OR_CLOSED']
+                        'ERROR_STATUS_FOR_REJECTED', 'NO_STATE_AFTER_DISCONNECT', 'WELL_FORMED_DISPATCHED', 'EXCEPTION_ANSWERED_OR_CLOSED',
+                        'DISPATCHED_HEADERS_CLEAN']
 # KEPT_OPEN_CONNECTION_STILL_SERVES is only evaluated when the component answers a hostile message without closing; the tree under
 # test closes after every error response, so zero evaluations of it are the expected outcome and it is not required
 WORKER_TIMEOUT = {'quick': 300, 'thorough': 1500}
@@ -87,10 +88,18 @@ def env():
         def __init__(self):
             super().__init__()
             self.seen = []
+            self.dirty = []      # (name, value) of header fields handed to the application with NUL, CR or LF in them
 
         @handler('request', priority=10)
         def _v_on_request(self, event, req, res, *args):
             self.seen.append((req.method, req.path))
+            try:
+                items = list(req.headers.items())
+            except Exception:  # noqa: BLE001
+                items = []
+            for k, v in items:
+                if any(c in str(k) + str(v) for c in '\x00\r\n'):
+                    self.dirty.append((str(k)[:40], str(v)[:80]))
             return PROBE_BODY.decode()
 
     _ENV.update(HTTP=HTTP, read=read, disconnect=disconnect, FakeSock=FakeSock, Wire=Wire, Probe=Probe)
@@ -156,7 +165,7 @@ def observe(case):
         for i, chunk in enumerate(chunks):
             if stop_after is not None and i >= stop_after:
                 break
-            m_out, m_seen, m_exc = len(w.out), len(probe.seen), len(w.exceptions)
+            m_out, m_seen, m_exc, m_dirty = len(w.out), len(probe.seen), len(w.exceptions), len(probe.dirty)
             _inject(w, E['read'](s, chunk))
             out = w.out[m_out:]
             step = {
@@ -164,6 +173,7 @@ def observe(case):
                 'closes': sum(1 for x in out if x[0] == 'close' and x[1] is s),
                 'foreign': sum(1 for x in out if x[1] is not s),
                 'requests': len(probe.seen) - m_seen,
+                'dirty_headers': [list(x) for x in probe.dirty[m_dirty:]],
                 'exceptions': [getattr(x[0], '__name__', repr(x[0])) for x in w.exceptions[m_exc:]],
             }
             obs['steps'].append(step)
@@ -277,6 +287,10 @@ def judge(case, obs):
                             '%s:%d' % (cls, r.status)))
             if st['requests'] and r.status in (400, 505):
                 res.append(('REJECTED_NOT_DISPATCHED', False, {'read': i, 'status': r.status, 'requests': st['requests']}, cls))
+        if st['requests']:
+            # RFC 9110 5.5 / RFC 7230 3.2.4: a field value with NUL, CR or LF (an obs-fold included) is either rejected or has each of them
+            # replaced by SP before it is interpreted; a dispatched request that still carries them was neither rejected nor repaired
+            res.append(('DISPATCHED_HEADERS_CLEAN', not st['dirty_headers'], {'read': i, 'header_fields_with_NUL_CR_LF': st['dirty_headers'][:4]}, cls))
         if st['exceptions']:
             # an exception event is the loop's report of a failed handler: the connection must be answered or closed, not left hanging
             res.append(('EXCEPTION_ANSWERED_OR_CLOSED', bool(st['written'] or st['closes']),
@@ -464,7 +478,7 @@ def mutations(rng, orig):
     """(class, expect, bytes) for one random mutation of the well-formed request ``orig``."""
     line, hs, body = split_head(orig)
     method, target, version = line.split(b' ')
-    k = rng.randrange(35)
+    k = rng.randrange(38)
     if k == 0:
         return 'firstline-tokens', 'reject', join_head(rng.choice([method + b' ' + target, method, b'GARBAGE', b'', target + b' ' + version]), hs, body)
     if k == 1:
@@ -570,6 +584,27 @@ def mutations(rng, orig):
         host = rng.choice([b'e\x01ample.org', b'h\x7f', b'h\\x02', b'\x1fh:80', b'h\x0b'])
         return 'host-control-byte', 'any', join_head(b' '.join([method, rng.choice([b'x', target[1:] or b'y', b'//' + target, target]), version]),
                                                      [h for h in hs if not h.lower().startswith(b'host')] + [b'Host: ' + host], body)
+    if k in (34, 35):
+        # obsolete line folding: legal to reject, legal to unfold - but never to hand CR LF on to the application
+        ws = rng.choice([b' ', b'\t', b'  \t '])
+        hs2 = list(hs)
+        if rng.random() < 0.4:
+            hs2 = [h + b'\r\n' + ws + b'x' if h.lower().startswith(b'host') else h for h in hs2]
+        else:
+            hs2.insert(rng.randint(0, len(hs2)), b'X-Fold: first\r\n' + ws + b'second' + (b'\r\n' + ws + b'third' if rng.random() < 0.4 else b''))
+        return 'header-folded', 'any', join_head(line, hs2, body)
+    if k in (36, 37):
+        # hostile bytes on the continuation line of a folded field (raw, or as the backslash escapes the parser decodes)
+        bad = rng.choice([b'\x00', b'\x01', b'\x7f', b'\x0b', b'\r', b'a\rb', b'\\x00', b'\\r\\n', b'\\x0a', b'\\x7f'])
+        ws = rng.choice([b' ', b'\t'])
+        cont = b'\r\n' + ws + rng.choice([b'', b'y']) + bad + rng.choice([b'', b'z'])
+        hs2 = list(hs)
+        if rng.random() < 0.5:
+            tgt = rng.choice([b'x', target[1:] or b'y', target])
+            hs2 = [h + cont if h.lower().startswith(b'host') else h for h in hs2]
+            return 'folded-control-byte', 'any', join_head(b' '.join([method, tgt, version]), hs2, body)
+        hs2.insert(rng.randint(0, len(hs2)), b'X-Fold: first' + cont)
+        return 'folded-control-byte', 'any', join_head(line, hs2, body)
     return 'well-formed', 'accept', orig
 
 
@@ -658,6 +693,14 @@ def corpus_cases():
         ('host-control-byte', 'any', b'GET x HTTP/1.1\r\nHost: e\x01ample.org\r\n\r\n'),
         ('host-control-byte', 'any', b'GET x HTTP/1.1\r\nHost: h\\x7f\r\n\r\n'),
         ('host-control-byte', 'any', b'GET /ok HTTP/1.1\r\nHost: e\x01ample.org\r\n\r\n'),
+        ('header-folded', 'any', b'GET / HTTP/1.1\r\nHost: h\r\nX-Fold: a\r\n b\r\n\tc\r\n\r\n'),
+        ('header-folded', 'any', b'GET / HTTP/1.1\r\nHost: h\r\n x\r\n\r\n'),
+        ('folded-control-byte', 'any', b'GET / HTTP/1.1\r\nHost: h\r\nX-Fold: a\r\n b\x00c\r\n\r\n'),
+        ('folded-control-byte', 'any', b'GET / HTTP/1.1\r\nHost: h\r\nX-Fold: a\r\n\tb\rc\r\n\r\n'),
+        ('folded-control-byte', 'any', b'GET / HTTP/1.1\r\nHost: h\r\nX-Fold: a\r\n b\\x00c\r\n\r\n'),
+        ('folded-control-byte', 'any', b'GET / HTTP/1.1\r\nHost: h\r\nX-Fold: a\r\n b\\r\\nX-Injected: 1\r\n\r\n'),
+        ('folded-control-byte', 'any', b'GET x HTTP/1.1\r\nHost: h\r\n \\r\\nSet-Cookie: a=b\r\n\r\n'),
+        ('folded-control-byte', 'any', b'GET x HTTP/1.1\r\nHost: h\r\n e\x01vil\r\n\r\n'),
         ('trailing-garbage', 'any', GOOD + b'XYZ'),
         ('http10-no-keepalive', 'accept', b'GET /old HTTP/1.0\r\n\r\n'),
         ('connection-close', 'accept', b'GET /bye HTTP/1.1\r\nHost: h\r\nConnection: close\r\n\r\n'),
